@@ -213,8 +213,11 @@ def top_key(key):
 
 def _map_place(p, lmap, upvars=None):
     """renumber the base local (and locals used as index projections)"""
-    if upvars is not None and p and p[0] == 1 and len(p) >= 2 and isinstance(p[1], str) and p[1] in upvars:
-        return [upvars[p[1]]] + [(_map_proj(x, lmap)) for x in p[2:]]
+    if upvars is not None and p and p[0] == 1 and len(p) >= 2:
+        if isinstance(p[1], str) and p[1] in upvars:
+            return [upvars[p[1]]] + [(_map_proj(x, lmap)) for x in p[2:]]
+        if p[1] == "*" and len(p) >= 3 and isinstance(p[2], str) and p[2] in upvars:      # closure called through a reference
+            return [upvars[p[2]]] + [(_map_proj(x, lmap)) for x in p[3:]]
     return [lmap(p[0])] + [_map_proj(x, lmap) for x in p[1:]]
 
 
@@ -304,7 +307,7 @@ def splice(caller_j, call_bb, callee_j, mode, cont=None, result_local=None, upva
     B0 = len(blocks)
     # parameters of the callee lose their names: a value keeps the name it has in the caller (`client`, not `from`)
     param_locals = set()
-    if mode == "sync":
+    if mode in ("sync", "closure"):
         param_locals = set(range(1, callee_j.get("arg_count", 0) + 1))
     else:
         for b in callee_j["blocks"]:
@@ -324,7 +327,18 @@ def splice(caller_j, call_bb, callee_j, mode, cont=None, result_local=None, upva
     upvars = None
     entry_stmts = []
     sp = call_t.get("fsp") or blocks[call_bb].get("sp") or {}
-    if mode == "async":
+    if mode == "closure":
+        # args[0] is the closure value; its captures are the operands of the aggregate that built it (upvar_args); args[1:] are the
+        # closure's parameters (_2.. of the closure body)
+        upvars = {}
+        for k, a in enumerate(upvar_args or []):
+            nl = len(locals_)
+            locals_.append({"ty": callee_j["locals"][1]["ty"], "param_name": None, "inlined": True})
+            upvars["f:%d" % k] = nl
+            entry_stmts.append({"k": "assign", "lhs": [nl], "rv": {"k": "use", "a": a}, "sp": sp})
+        for k, a in enumerate(args[1:]):
+            entry_stmts.append({"k": "assign", "lhs": [L0 + 2 + k], "rv": {"k": "use", "a": a}, "sp": sp})
+    elif mode == "async":
         upvars = {}
         for k, a in enumerate(args):
             nl = len(locals_)
@@ -360,7 +374,7 @@ def splice(caller_j, call_bb, callee_j, mode, cont=None, result_local=None, upva
                 nb["term"] = _map_term(t, lmap, bmap, upvars)
         blocks.append(nb)
     blocks.append({"stmts": entry_stmts, "term": {"k": "goto", "t": B0}, "sp": sp, "inlined": True})
-    if mode == "sync":
+    if mode in ("sync", "closure"):
         dest = call_t.get("dest") or []
         land = []
         if dest:
@@ -382,7 +396,7 @@ def splice(caller_j, call_bb, callee_j, mode, cont=None, result_local=None, upva
     # `helper(..)?`: a return site of the helper that is known to produce Ok (Err) continues directly on the Continue (Break) side of
     # the caller's `?`, so that "the helper returned early" and "the caller returned early" stay correlated in the CFG
     try:
-        res_local = (call_t.get("dest_orig") or [None])[0] if mode == "sync" else result_local
+        res_local = (call_t.get("dest_orig") or [None])[0] if mode in ("sync", "closure") else result_local
         cont_entry = blocks[Lb]["term"]["t"]
         _thread_try(blocks, callee_j, B0, L0, Lb, res_local, cont_entry, sp)
     except Exception:
@@ -554,6 +568,147 @@ def _retype(prog, callee_j, from_crate, to_crate):
     return walk(callee_j)
 
 
+# --------------------------------------------------------------------------- Option / Result combinators
+
+# (type, method) -> per-variant behaviour.  Variant 0 = None / Ok, variant 1 = Some / Err.
+#   ("pass",)            result = receiver's value of that variant, unchanged
+#   ("wrap", V, "payload")   result = V(payload)            e.g. ok_or: Some(v) -> Ok(v)
+#   ("wrap", V, ("arg", i))  result = V(args[i])
+#   ("unit", V)          result = V  (None)
+#   ("arg", i)           result = args[i]
+#   ("payload",)         result = the payload
+#   ("call", i, wrapV|None, with_payload)   result = [wrapV](args[i](payload?))
+#   ("const", 0|1)       boolean constant
+COMB = {
+    ("Option", "map"): {0: ("unit", "None"), 1: ("call", 1, "Some", True)},
+    ("Option", "and_then"): {0: ("unit", "None"), 1: ("call", 1, None, True)},
+    ("Option", "map_or"): {0: ("arg", 1), 1: ("call", 2, None, True)},
+    ("Option", "map_or_else"): {0: ("call", 1, None, False), 1: ("call", 2, None, True)},
+    ("Option", "unwrap_or"): {0: ("arg", 1), 1: ("payload",)},
+    ("Option", "unwrap_or_else"): {0: ("call", 1, None, False), 1: ("payload",)},
+    ("Option", "ok_or"): {0: ("wrap", "Err", ("arg", 1)), 1: ("wrap", "Ok", "payload")},
+    ("Option", "ok_or_else"): {0: ("call", 1, "Err", False), 1: ("wrap", "Ok", "payload")},
+    ("Option", "or_else"): {0: ("call", 1, None, False), 1: ("pass",)},
+    ("Option", "or"): {0: ("arg", 1), 1: ("pass",)},
+    ("Option", "is_some_and"): {0: ("const", 0), 1: ("call", 1, None, True)},
+    ("Result", "map"): {0: ("call", 1, "Ok", True), 1: ("pass",)},
+    ("Result", "map_err"): {0: ("pass",), 1: ("call", 1, "Err", True)},
+    ("Result", "and_then"): {0: ("call", 1, None, True), 1: ("pass",)},
+    ("Result", "or_else"): {0: ("pass",), 1: ("call", 1, None, True)},
+    ("Result", "ok"): {0: ("wrap", "Some", "payload"), 1: ("unit", "None")},
+    ("Result", "err"): {0: ("unit", "None"), 1: ("wrap", "Some", "payload")},
+    ("Result", "unwrap_or"): {0: ("payload",), 1: ("arg", 1)},
+    ("Result", "unwrap_or_else"): {0: ("payload",), 1: ("call", 1, None, True)},
+    ("Result", "is_ok_and"): {0: ("call", 1, None, True), 1: ("const", 0)},
+    ("Result", "is_err_and"): {0: ("const", 0), 1: ("call", 1, None, True)},
+}
+VNAME = {"Option": {0: "None", 1: "Some"}, "Result": {0: "Ok", 1: "Err"}}
+VDEF = {"None": "core::option::Option", "Some": "core::option::Option", "Ok": "core::result::Result", "Err": "core::result::Result"}
+
+
+def desugar_combinators(prog, Fn, F):
+    """Replace `recv.map_or(d, |v| ..)`-style calls in F by the control flow they stand for (a switch on the receiver's variant, the
+    closure body spliced in), so that rules reason about Option/Result combinator chains exactly as about match / if let.
+    The original call stays as a marker.  Returns the rebuilt Fn (or F when nothing was done)."""
+    changed = True
+    rounds = 0
+    while changed and rounds < 40:
+        changed = False
+        rounds += 1
+        for c in F.calls:
+            m = re.search(r"(Option)::<T>::(\w+)$|(Result)::<T, E>::(\w+)$", c.path or "")
+            if not m or c.term.get("inlined") or c.target is None or len(c.dest) != 1:
+                continue
+            ty, meth = (m.group(1), m.group(2)) if m.group(1) else (m.group(3), m.group(4))
+            spec = COMB.get((ty, meth))
+            if spec is None:
+                continue
+            recv = c.args[0].get("m") or c.args[0].get("c")
+            if not recv or len(recv) != 1:
+                continue
+            # closures used by this combinator must be literals built in this function
+            clos = {}
+            ok = True
+            for v, act in spec.items():
+                if act[0] == "call":
+                    a = c.args[act[1]] if act[1] < len(c.args) else None
+                    l = (a.get("m") or a.get("c") or [None])[0] if a and "k" not in a else None
+                    d = F.single_def(l) if l is not None else None
+                    if not d or d[1] == "term" or d[2]["k"] != "agg" or d[2].get("ak") != "closure":
+                        ok = False
+                        break
+                    cf = prog.fns.get(F.crate + "::" + d[2]["def"])
+                    if cf is None:
+                        ok = False
+                        break
+                    clos[v] = (cf, d[2]["ops"], a)
+            if not ok:
+                continue
+            j = copy.deepcopy(F.j)
+            blocks = j["blocks"]
+            locals_ = j["locals"]
+            t = blocks[c.bb]["term"]
+            sp = t.get("fsp") or blocks[c.bb].get("sp") or {}
+            dest = list(t["dest"])
+            cont = t["t"]
+            bool_ty = None
+            disc = len(locals_)
+            locals_.append({"ty": locals_[dest[0]]["ty"], "inlined": True})
+            D = len(blocks)
+            blocks.append({"stmts": [{"k": "assign", "lhs": [disc], "rv": {"k": "discr", "p": [recv[0]]}, "sp": sp}], "term": None, "sp": sp, "inlined": True})
+            arms = {}
+            pending = []
+            for v, act in spec.items():
+                payload = {"m": [recv[0], "d:" + VNAME[ty][v], "f:0"]}
+                stmts = []
+                bi = len(blocks)
+                blocks.append({"stmts": stmts, "term": {"k": "goto", "t": cont}, "sp": sp, "inlined": True})
+                arms[v] = bi
+                if act[0] == "pass":
+                    stmts.append({"k": "assign", "lhs": dest, "rv": {"k": "use", "a": {"m": [recv[0]]}}, "sp": sp})
+                elif act[0] == "unit":
+                    stmts.append({"k": "assign", "lhs": dest, "rv": {"k": "agg", "ak": "adt", "def": VDEF[act[1]], "variant": act[1], "fields": [], "ops": []}, "sp": sp})
+                elif act[0] == "wrap":
+                    op = payload if act[2] == "payload" else c.args[act[2][1]]
+                    stmts.append({"k": "assign", "lhs": dest, "rv": {"k": "agg", "ak": "adt", "def": VDEF[act[1]], "variant": act[1], "fields": ["0"], "ops": [op]}, "sp": sp})
+                elif act[0] == "arg":
+                    stmts.append({"k": "assign", "lhs": dest, "rv": {"k": "use", "a": c.args[act[1]]}, "sp": sp})
+                elif act[0] == "payload":
+                    stmts.append({"k": "assign", "lhs": dest, "rv": {"k": "use", "a": payload}, "sp": sp})
+                elif act[0] == "const":
+                    stmts.append({"k": "assign", "lhs": dest, "rv": {"k": "use", "a": {"k": {"ty": locals_[dest[0]]["ty"], "s": "true" if act[1] else "false", "int": act[1]}}}, "sp": sp})
+                elif act[0] == "call":
+                    cf, ops, carg = clos[v]
+                    wrapv = act[2]
+                    tmp = dest[0]
+                    after = cont
+                    if wrapv:
+                        tmp = len(locals_)
+                        locals_.append({"ty": cf.j["locals"][0]["ty"], "inlined": True})
+                        wb = len(blocks)
+                        blocks.append({"stmts": [{"k": "assign", "lhs": dest, "rv": {"k": "agg", "ak": "adt", "def": VDEF[wrapv], "variant": wrapv, "fields": ["0"],
+                                                                                     "ops": [{"m": [tmp]}]}, "sp": sp}],
+                                       "term": {"k": "goto", "t": cont}, "sp": sp, "inlined": True})
+                        after = wb
+                    cargs = [carg] + ([payload] if act[3] else [])
+                    blocks[bi]["term"] = {"k": "call", "f": {"path": cf.path, "crate": F.crate, "full": cf.path, "targs": [], "res": cf.path, "res_crate": F.crate},
+                                          "args": cargs, "dest": [tmp], "t": after, "fsp": sp}
+                    pending.append((bi, cf, ops))
+            tsw = [[v, arms[v]] for v in sorted(arms)]
+            blocks[D]["term"] = {"k": "switch", "d": {"m": [disc]}, "ts": tsw[:-1] if False else [[0, arms[0]]], "o": arms[1]}
+            t["t"] = D
+            t["dest_orig"] = t.get("dest")
+            t["dest"] = []
+            t["inlined"] = "combinator:%s::%s" % (ty, meth)
+            # splice the closure bodies
+            for (bi, cf, ops) in pending:
+                j = splice(j, bi, cf.j, "closure", upvar_args=ops)
+            F = Fn(prog, F.crate, j)
+            changed = True
+            break
+    return F
+
+
 # --------------------------------------------------------------------------- driver
 
 def expand(prog, Fn, log=None):
@@ -563,6 +718,30 @@ def expand(prog, Fn, log=None):
     if inv is None:
         return []
     prog.renamed = normalise_renames(prog, Fn, inv)
+    # combinator chains are rewritten into control flow in every function that is new or whose body differs from the inventory
+    prog.desugared = []
+    if not os.environ.get("RPX_NO_DESUGAR"):
+        finv = inv.get("fns", {})
+        for k in sorted(prog.fns):
+            f0 = prog.fns[k]
+            if f0.crate not in ("redproxy_rs", "milu"):
+                continue
+            tk = top_key(k)
+            top = prog.fns.get(tk)
+            ref = finv.get(tk)
+            edited = ref is None or (top is not None and ref.get("print") and fn_print(prog, top) != ref["print"]) or \
+                (ref is not None and ref.get("nblocks") is not None and top is not None and len(prog.body_of(top).blocks) != ref["nblocks"])
+            if not edited:
+                continue
+            try:
+                nf = desugar_combinators(prog, Fn, f0)
+            except Exception:
+                nf = f0
+            if nf is not f0:
+                prog.fns[k] = nf
+                prog.by_crate[nf.crate][nf.path] = nf
+                prog.desugared.append(k)
+        prog._cg = prog._rcg = None
     inv = set(inv["fns"])
     done = []
     for _round in range(4):
